@@ -129,6 +129,7 @@ Devs ==
   \cup { <<"hi.logCosets", v>> : v \in {Hi + 2} }              \* huge blow-up exponent, consistently re-declared
   \cup { <<"hi.ncols", v>> : v \in {Hi + 7} }
   \cup { <<"hi.nvf", v>> : v \in {Hi + 5} }
+  \cup { <<"fri.fifteenLayers", 0>> }                            \* the largest legal schedule: fourteen steps of 1 (a valid configuration)
   \cup { <<"fri.zeroStep", 0>> }                                 \* a zero step after the first, with a one-column layer of unchanged height: consistent, but step 0 is out of range
   \cup { <<"fri.step1Neg", k>> : k \in {1, 2} }                  \* first step -k (mod the field), k more bits in the last layer: every sum still closes
   \cup { <<"inv.nQueries", m>> : m \in {1, 21, 41} }            \* n_queries = m / log_n_cosets in the field: the product with log_n_cosets is the small number m
@@ -169,10 +170,15 @@ Apply(c, d) ==
     [] d[1] = "traceShift" -> LET e == FAdd(FAdd(c.logTrace, d[2]), c.logCosets) IN
                               [c EXCEPT !.logTrace = FAdd(@, d[2]), !.orig.vec.height = e, !.inter.vec.height = e, !.comp.vec.height = e,
                                         !.fri.logInput = e, !.fri.inner[1].vec.height = FSub(e, 4), !.fri.inner[2].vec.height = FSub(e, 7)]
+    [] d[1] = "fri.fifteenLayers" ->
+         [c EXCEPT !.logTrace = 16, !.orig.vec.height = 18, !.inter.vec.height = 18, !.comp.vec.height = 18,
+                   !.fri = [logInput |-> 18, nLayers |-> 15, steps |-> [i \in 1..15 |-> IF i = 1 THEN 0 ELSE 1], logLast |-> 2,
+                            inner |-> [i \in 1..14 |-> [ncols |-> 2, vec |-> Vec(18 - i, 5)]]]]
     [] d[1] = "fri.zeroStep" -> [c EXCEPT !.fri.nLayers = 4, !.fri.steps = <<0, 0, 4, 3>>,
                                            !.fri.inner = <<[ncols |-> 1, vec |-> Vec(11, 5)]>> \o @]
     [] d[1] = "fri.step1Neg" -> [c EXCEPT !.fri.steps[1] = P - d[2], !.fri.logLast = @ + d[2]]
-    [] d[1] = "inv.nQueries" -> [c EXCEPT !.nQueries = FMul(d[2] % P, CHOOSE x \in 1..(P - 1) : FMul(x, c.logCosets) = 1)]
+    [] d[1] = "inv.nQueries" -> IF c.logCosets % P = 0 THEN c          \* no quotient by zero: the deviation leaves the configuration as it is
+                               ELSE [c EXCEPT !.nQueries = FMul(d[2] % P, CHOOSE x \in 1..(P - 1) : FMul(x, c.logCosets % P) = 1)]
     [] d[1] = "hi.nQueries" -> [c EXCEPT !.nQueries = d[2]]
     [] d[1] = "hi.nLayers" -> [c EXCEPT !.fri.nLayers = d[2]]
     [] d[1] = "hi.ncols" -> [c EXCEPT !.orig.ncols = d[2]]
